@@ -99,6 +99,10 @@ func typeShortName(T types.Type) string {
 		return sanitize(n)
 	case *types.Alias:
 		return typeShortName(types.Unalias(t))
+	case *types.Basic:
+		if t.Kind() >= types.Bool && t.Kind() <= types.UnsafePointer {
+			return types.Typ[t.Kind()].Name()
+		}
 	}
 	return sanitize(types.TypeString(T, func(p *types.Package) string { return p.Name() }))
 }
@@ -421,9 +425,11 @@ func elemOf(T types.Type) types.Type {
 }
 
 // heap variable names
+// memName: the heap of backing arrays is partitioned by Go element type (a backing array has exactly
+// one element type; unsafe reinterpretation is outside the model)
 func (e *Engine) memName(elem types.Type) (string, Sort) {
 	s := e.sortOf(elem)
-	return "M_" + sanitize(string(s)), ArraySort(SInt, ArraySort(SInt, s))
+	return "M_" + typeShortName(types.Unalias(elem)), ArraySort(SInt, ArraySort(SInt, s))
 }
 func (e *Engine) boxName(elem types.Type) (string, Sort) {
 	s := e.sortOf(elem)
